@@ -7,6 +7,7 @@
 #include <cstdio>
 #include <cstring>
 #include <fstream>
+#include <memory>
 #include <sstream>
 
 extern "C" int __real_open(const char*, int, ...);
@@ -111,10 +112,15 @@ std::string hex16(uint64_t v) {
 }
 
 std::string jstr(const Json::Value& v) {
-  Json::StreamWriterBuilder b;
-  b["indentation"] = "";
-  b["precision"] = 17;
-  return Json::writeString(b, v);
+  static thread_local std::unique_ptr<Json::StreamWriter> writer = [] {
+    Json::StreamWriterBuilder b;
+    b["indentation"] = "";
+    b["precision"] = 17;
+    return std::unique_ptr<Json::StreamWriter>(b.newStreamWriter());
+  }();
+  std::ostringstream os;
+  writer->write(v, &os);
+  return os.str();
 }
 
 Json::Value jparse(const std::string& s) {
